@@ -84,6 +84,10 @@ def _two_lists(r, universe, kmax=None, single=False):
     return _sublist(r, universe, common, kmax), _sublist(r, universe, common, kmax)
 
 
+NETS = {4: (['10.1.0.0/16', '10.1.1.0/24', '10.1.1.128/25', '192.168.7.0/24'], ['10.2.0.0/16', '10.2.2.0/24', '10.2.2.64/26', '172.16.0.0/12']),
+        6: (['fd00:1::/32', 'fd00:1:1::/48', 'fd00:1:1:1::/64'], ['fd00:2::/32', 'fd00:2:2::/48', 'fd00:2:2:2::/64'])}
+
+
 def make_pair(r, o=None):
     """Returns (confA, confB, meta). o: options dict:
        profile: 'fast' | 'slow'; family: 4 | 6 | None; auth: 'psk' | 'rsa' | None; slow_dh: bool;
@@ -176,12 +180,19 @@ def make_pair(r, o=None):
             else:
                 ap = r.choice([0, 0, 1, 22, 255, 256, 4500, 65535] + ([r.randrange(1, 65536)] if o.get('wide_nets') else []))
                 bp = r.choice([0, 80, 23, 1, 255, 256, 443, 65535] + ([r.randrange(1, 65536)] if o.get('wide_nets') else []))
+            # mixed_family: a tunnel whose inner traffic is of the other address family than its endpoints (6in4 / 4in6)
+            efam = fam
+            if o.get('mixed_family') and mode == 'tunnel' and a_nets and r.random() < o['mixed_family']:
+                efam = 10 - fam
             if mode == 'transport' or not a_nets:
                 an, bn = None, None
+            elif efam != fam and not o.get('wide_nets'):
+                an = r.choice(NETS[efam][0])
+                bn = r.choice(NETS[efam][1])
             elif o.get('wide_nets'):
                 # every prefix length: a random network inside the side's address space (and sometimes everything)
                 def rnd_net(base6, base4):
-                    if fam == 4:
+                    if efam == 4:
                         plen = r.choice([0, 1, 7, 8, 9, 15, 16, 17, 23, 24, 25, 30, 31, 32])
                         return str(ipaddress.ip_network((r.getrandbits(32), plen), strict=False)) if plen < 8 else \
                             str(ipaddress.ip_network((int(ipaddress.ip_address(base4)) | r.getrandbits(24), plen), strict=False))
